@@ -6,7 +6,7 @@ from ..build import sym
 
 COND_CLASSES = ["ConditionalGaussianPDF", "ConditionalGaussianDiagPDF", "ConditionalIdentityGaussianPDF",
                 "ConditionalIdentityDiagGaussianPDF"]
-BATCH_CTX = ["1/1", "n/1", "1/n"]          # (R_cond / R_x)
+BATCH_CTX = ["1/1", "n/1", "1/n"]          # (R_cond / R_x)   ; "n/n" raises RuntimeError("... multiple marginals with multiple conditional is not implemented") in the library: outside its domain
 ROUTE_CTX = ["1/1@Sigma", "1/1@Lambda", "n/1@Lambda", "1/1@updated", "n/1@updated", "1/1@diagprior"]     # constructor routes of the conditional (covariance only / precision only)
 REGIMES = ["Dx>Dy", "Dx<=Dy"]
 
